@@ -241,7 +241,7 @@ func c05(args []string) {
 	for g := 0; g < ngraphs; g++ {
 		b := []int{1, 2, 3, 5}[rng.Intn(4)]
 		mt := []int{1, 2, 3, 4, 8}[rng.Intn(5)]
-		o := gen.GraphOpts{MaxProcs: 7, Lens: lensFor(b), Buf: b, FanIn: true, Params: true, GoFunc: true, MultiOut: true, Portless: true, SubDirs: true,
+		o := gen.GraphOpts{MaxProcs: 7, Lens: lensFor(b), Buf: b, FanIn: true, Params: true, GoFunc: true, WriteAPI: true, MultiOut: true, Portless: true, SubDirs: true,
 			ParamComb: true, Cores: mt, MaxTasks: mt, SleepMax: 25, Leaf: true}
 		s := gen.Graph(rng, fmt.Sprintf("g%d", g), o)
 		exp := evalRef(s, nil)
